@@ -228,12 +228,16 @@ void complete(Comm &c, Coll &k) {
 std::shared_ptr<Coll> arrive(int comm, int kind, const void *sbuf, void *rbuf, int a, int b, std::function<void(Coll&)> init) {
     int wr = my_world_rank();
     int me = comm_rank_of(W.comms[comm], wr);
-    if (me < 0) { fprintf(stderr, "amgsim mpi: rank %d calls a collective on communicator %d it does not belong to\n", wr, comm); abort(); }
+    if (me < 0) { char buf[160]; snprintf(buf, sizeof buf, "rank %d calls a collective on communicator %d it does not belong to", wr, comm); sim::fail_world(buf); }
     uint64_t seq = W.comms[comm].seq[me]++;
     std::shared_ptr<Coll> &slot = W.comms[comm].colls[seq];
     if (!slot) { slot = std::make_shared<Coll>(); int n = (int)W.comms[comm].members.size(); slot->kind = kind; slot->sbuf.assign(n, 0); slot->rbuf.assign(n, 0); slot->a.assign(n, 0); slot->b.assign(n, 0); }
     std::shared_ptr<Coll> k = slot;
-    if (k->kind != kind) { fprintf(stderr, "amgsim mpi: collective mismatch on communicator %d (call %llu): rank %d calls kind %d, another rank kind %d\n", comm, (unsigned long long)seq, wr, kind, k->kind); abort(); }
+    if (k->kind != kind) {
+        static const char *names[] = { "?", "Barrier", "Allreduce", "Allgather", "Gather", "Alltoall", "Exscan", "Comm_split" };
+        char buf[256]; snprintf(buf, sizeof buf, "collective mismatch on communicator %d (collective call #%llu): rank %d calls MPI_%s while another rank is in MPI_%s", comm, (unsigned long long)seq, wr, names[kind & 7], names[k->kind & 7]);
+        sim::fail_world(buf);
+    }
     k->sbuf[me] = sbuf; k->rbuf[me] = rbuf; k->a[me] = a; k->b[me] = b; init(*k);
     if (++k->arrived == (int)W.comms[comm].members.size()) { complete(W.comms[comm], *k); W.comms[comm].colls.erase(seq); }
     return k;
